@@ -19,7 +19,8 @@ pub fn caps_for_kind(kind: u8) -> &'static [usize] {
         4 => &[0, 1],
         5 => &[0, 1, 3],
         6 => &[0, 1, 2, 3, 4, 6],
-        _ => &[0, 1, 2],
+        7 => &[0, 1, 2],
+        _ => &[0, 1, 2, 3, 4, 6, 9],
     }
 }
 
